@@ -21,6 +21,7 @@ fn main() {
     let code = match cfg.prop.as_str() {
         "C02" => props::c02::run(&cfg),
         "C05" => props::c05::run(&cfg),
+        "C09" => props::c09::run(&cfg),
         "play" => tools::play_cmd(&args),
         "gen" => tools::gen_cmd(&cfg),
         "classify" => tools::classify_cmd(&args),
